@@ -452,9 +452,11 @@ def parseExtraDecls (fuel : Nat) (allowMultiple isQubit hasInit isFinal : Bool) 
       if !isQubit then reportError "only 'qubit' may be multi-declared"
       if hasInit then reportError "Cannot initialise multiple qubit declarations"
       let t ← expect .Identifier "Expected variable name after ','"
-      -- cloneAnnotations / cloneType; the clone carries the first declarator's isTracked
+      -- cloneAnnotations (name and value only: the clones' placement flags stay false) / cloneType; the clone carries the
+      -- first declarator's isTracked
       parseExtraDecls fuel allowMultiple isQubit hasInit isFinal anns ty
-        (acc ++ [Stmt.varDecl (tstr t) ty none anns isFinal (annsTracked anns) (tpos t)])
+        (acc ++ [Stmt.varDecl (tstr t) ty none (anns.map (fun a => { name := a.name, value := a.value })) isFinal
+          (annsTracked anns) (tpos t)])
     else pure acc
 
 /-- `parseVariableDeclaration(isFinal, allowMultiple)`; returns the declaration and the staged
